@@ -58,7 +58,7 @@ KNOWN_BRACE = 'C05-brace-override-keeps-old'
 DRIVER_SUB = 'init'
 KNOWN_FLEX = 'C05-flex-reinit'      # region InitSpec.FlexReinit; reported as a known finding once known_findings.json lists it
 KNOWN_BRACED = 'C05-braced-string-literal'   # 6.7.9p14/p15: a string literal for a character array may be enclosed in braces
-BRACED_STR_SHARE = 0.0 if os.environ.get('C05_NO_BRACED_STR') else 0.06     # share of braced_str_case() in case(); the env var is a debugging aid
+BRACED_STR_SHARE = 0.0 if os.environ.get('C05_NO_BRACED_STR') else 0.06     # the braced_str generator adds 2 x this share of the main cases; the env var is a debugging aid
 
 
 def known_listed(fid):
@@ -271,8 +271,10 @@ ADDR_FORMS = [  # (C text, label, addend)
 
 class Gen:
     """type-directed generator of (type, initializer spelling)"""
-    def __init__(self, rng, thorough=False):
+    def __init__(self, rng, thorough=False, brace_strings=False):
         self.rng = rng
+        self._brace_strings = brace_strings      # write `{ "..." }` for character arrays in line (the braced_str generator only:
+                                                 # the main generator's random stream stays what it was before the family existed)
         self.strid = 0
         self.features = set()
 
@@ -528,7 +530,7 @@ class Gen:
         return toks + ['}']
 
     def brace_strings(self):
-        return BRACED_STR_SHARE > 0
+        return self._brace_strings and BRACED_STR_SHARE > 0
 
     # ------------------------------------------------------------------ initializer spellings
     def leaf_info(self, root, path):
@@ -1038,14 +1040,18 @@ class Gen:
             if isinstance(toks[1], tuple): self.features.add('designator')
         return {'ty': t, 'toks': toks, 'features': sorted(self.features), 'notes': sorted(notes)}
 
+    def case_b(self):
+        """the braced_str generator (its own Gen with its own random stream): the dedicated shapes, or any case with strings braced in line"""
+        if self.rng.random() < 0.7:
+            return self.braced_str_case()
+        return self.case()
+
     def case(self):
         r0 = self.rng.random()
         if r0 < 0.07:
             return self.range_case()
         if r0 < 0.12:
             return self.reloc_case()
-        if r0 < 0.12 + BRACED_STR_SHARE:
-            return self.braced_str_case()
         self.features = set()
         notes = set()
         t = self.top_type()
@@ -1649,6 +1655,13 @@ def correspond(ctx, corr):
     todo = list(cases)
     while len(todo) < total + len(cases):
         todo.append(gen.case())
+    if BRACED_STR_SHARE > 0:
+        # the family `{ string-literal }` (6.7.9p14/p15) comes from a generator of its own, seeded from ctx.rng AFTER the main cases
+        # have been drawn, so that adding the family does not change which main cases a seed produces
+        import random as _random
+        gen_b = Gen(_random.Random(ctx.rng.getrandbits(64)), ctx.thorough, brace_strings=True)
+        for _ in range(int(total * 2 * BRACED_STR_SHARE)):
+            todo.append(gen_b.case_b())
     for i in range(0, len(todo), batch):
         runner.run_batch(todo[i:i + batch])
         if (len(corr.disagreements) > 20 or len([v for v in corr.violations if not v.get('known_id')]) > 10) and not os.environ.get('C05_KEEP_GOING'):
